@@ -354,6 +354,15 @@ def arr_out(f):
     return run_ok(lambda: from_np(f()))
 
 
+def must_be_new(res, *inputs):
+    """"yields a NEW array": the result must not be (a view of) one of the inputs"""
+    import numpy as np
+    for a in inputs:
+        if res is a or (isinstance(res, np.ndarray) and res.size and res.dtype.itemsize and np.shares_memory(res, a)):
+            raise AssertionError("the result is not a new array: it shares memory with an input")
+    return res
+
+
 def rowbytes(fields):
     n = 0
     for f in fields:
@@ -409,7 +418,7 @@ class _Select(Entry):
         for fs in (c["arr"]["fields"], [x for x in c["arr"]["fields"] if x["name"] in keep],
                    [x for x in c["arr"]["fields"] if x["name"] not in keep]):
             dirty_heap(nelem(c["arr"]["shape"]) * rowbytes(fs))
-        return f(a, nm)
+        return must_be_new(f(a, nm), a)
 
 
 class Extract(_Select):
@@ -544,7 +553,7 @@ class Add(Entry):
                 defaults = vs[0] if dv["form"] == "single" else vs
             a = to_np(c["arr"])
             dirty_heap(nelem(c["arr"]["shape"]) * rowbytes(c["arr"]["fields"] + c["add"]))
-            return nu.add_fields(a, spec, defaults=defaults)
+            return must_be_new(nu.add_fields(a, spec, defaults=defaults), a)
         return arr_out(f)
 
     def _args(self, c):
@@ -611,7 +620,9 @@ class Combine(Entry):
             arrs = [to_np(a) for a in c["arrs"]]
             if arrs:
                 dirty_heap(nelem(c["arrs"][0]["shape"]) * rowbytes([x for a in c["arrs"] for x in a["fields"]]))
-            return nu.combine_fields(arrs)
+            res = nu.combine_fields(arrs)
+            # (a one-element list is returned as it is: `return arrlist[0]`; not demanded to be a copy)
+            return must_be_new(res, *arrs) if len(arrs) >= 2 else res
         return arr_out(f)
 
     def _args(self, c):
